@@ -184,6 +184,21 @@ pub fn make_scenario(rng: &mut gen::R, corpus: &[Pos], kind: &str) -> Scenario {
                 sc.buckets = 1024;
             }
         }
+        "backward" => {
+            // a takeback: the position after a move is searched first, then the position before it, on one
+            // memory (so a successor of the new root is in the history and scores as a draw)
+            let a = random_root(rng, corpus);
+            let legal = a.legal_moves();
+            let s1 = a.make(legal.choose(rng).unwrap());
+            if !s1.legal_moves().is_empty() {
+                sc.steps.push(Step::new(&s1.fen(), rng.gen_range(1..=3), w(rng), rng.gen()));
+            }
+            sc.steps.push(Step::new(&a.fen(), rng.gen_range(1..=4).min(pick_depth(rng, a.men()).max(1)), w(rng), rng.gen()));
+            if rng.gen_bool(0.5) {
+                sc.tables = 8;
+                sc.buckets = 1024;
+            }
+        }
         "jumps" => {
             for _ in 0..rng.gen_range(2..6) {
                 let p = random_root(rng, corpus);
@@ -434,8 +449,8 @@ pub fn run(ctx: &Ctx, rep: &mut Report) {
         }
         return;
     }
-    let mut n = ctx.n(40_000, 1_000_000);
-    let kinds = ["single", "related", "rights", "rights", "ep", "ep", "jumps", "interrupted", "schedule", "schedule", "chain", "related"];
+    let mut n = ctx.n(18_000, 1_000_000);
+    let kinds = ["single", "related", "rights", "rights", "ep", "ep", "jumps", "interrupted", "schedule", "schedule", "chain", "related", "backward", "backward"];
     let mut k = 0usize;
     while n > 0 && ctx.time_left() {
         let kind = kinds[k % kinds.len()];
